@@ -160,9 +160,9 @@ def function_level(ctx):
     texts = []
     for i in range(0, len(tails), 400):
         t = COQ_DEFS
-        t += "Definition tails := " + clist([f"({cbytes(d)}, {c_pair(p)}, {cbytes(o)})" for d, p, o in tails[i:i + 400]]) + ".\n"
-        t += "Definition renders := " + clist([f"({cbytes(d)}, {cbytes(o)}, {cz(s)})" for d, o, s in renders[i:i + 400]]) + ".\n"
-        t += "Definition desug := " + clist([f"({cz(a)}, {cz(b)})" for a, b in desugar]) + ".\n"
+        t += "Definition tails : list (list Z * (Z * Z) * list Z) := " + clist([f"({cbytes(d)}, {c_pair(p)}, {cbytes(o)})" for d, p, o in tails[i:i + 400]]) + ".\n"
+        t += "Definition renders : list (list Z * list Z * Z) := " + clist([f"({cbytes(d)}, {cbytes(o)}, {cz(s)})" for d, o, s in renders[i:i + 400]]) + ".\n"
+        t += "Definition desug : list (Z * Z) := " + clist([f"({cz(a)}, {cz(b)})" for a, b in desugar]) + ".\n"
         t += "Eval vm_compute in (bad_from chk_tail 0 tails).\nEval vm_compute in (bad_from chk_render 0 renders).\n"
         t += "Eval vm_compute in (bad_from chk_desugar 0 desug).\n"
         texts.append(t)
@@ -311,7 +311,7 @@ def end_to_end(ctx):
     rng = ctx.rng
     fnd = msgx.Findings(ctx)
     corpus = [(r, f) for r, f in msgx.WITNESSES] + fixtures()
-    ngen = 420 if ctx.thorough else 44
+    ngen = 900 if ctx.thorough else 44
     for i in range(ngen):
         corpus.append(msgx.gen_message(rng, hostile=(i % 4 == 3)))
     featdist = {}
@@ -343,7 +343,7 @@ def end_to_end(ctx):
     if cur:
         texts.append(cur)
         spans.append(start)
-    files = [COQ_DEFS + "Definition msgs := " + clist(t) + ".\nEval vm_compute in (bad_from chk_msg 0 msgs).\n" for t in texts]
+    files = [COQ_DEFS + "Definition msgs : list (list Z * list Z * list (Z * (Z * Z) * list Z)) := " + clist(t) + ".\nEval vm_compute in (bad_from chk_msg 0 msgs).\n" for t in texts]
     if files:
         outs = ctx.coq.eval_many("c16m", files)
         for k, out in enumerate(outs):
